@@ -343,7 +343,8 @@ def check_property(prop, tier, seed):
                 raise cr_pre
             cr = cr_pre
             canary_reports[unit] = cr
-            if cr["verified_unexpectedly"]:
+            if cr["verified_unexpectedly"] and not any("rustc error" in u for u in ur["undecided"]):
+                # (when the generated file does not even compile no canary can fail: that says nothing about vacuity)
                 undecided.append(f"vacuity: canaries verified in unit {unit}: {cr['verified_unexpectedly']}")
             if cr["canaries"] == 0:
                 undecided.append(f"vacuity: unit {unit} has no canaries")
